@@ -309,7 +309,8 @@ def _multi_agent(ck: Check, repo: Repo) -> None:
         ck.ob("C09.5", ro, inner[0], len(idx_i) >= 3 and not any(isinstance(x.slice, ast.Constant) for x in ast.walk(inner[0]) if isinstance(x, ast.Subscript)),
               "values of every field are taken at the same environment index i", detail=f"{len(idx_i)} reads at [{ivar}]")
         apps = [c for c in calls_in(inner[0]) if last_attr(c) == "append"]
-        ok2 = len(apps) == 1 and isinstance(apps[0].func.value, ast.Subscript) and dotted(apps[0].func.value.value) == "results" \
+        resvar = _returned_name(ro)  # role: the list of per-field lists is the variable the function returns (as a tuple)
+        ok2 = len(apps) == 1 and isinstance(apps[0].func.value, ast.Subscript) and resvar is not None and dotted(apps[0].func.value.value) == resvar \
             and isinstance(apps[0].func.value.slice, ast.Name) and apps[0].func.value.slice.id == jvar
         ck.ob("C09.5", ro, apps[0] if apps else inner[0], ok2, "the per-environment dict of field j is appended to results[j]")
         items = [f for f in ast.walk(inner[0]) if isinstance(f, ast.For) and isinstance(f.iter, ast.Call) and last_attr(f.iter) == "items"]
@@ -330,9 +331,10 @@ def _multi_agent(ck: Check, repo: Repo) -> None:
                 a = v.args[0]
                 if isinstance(a, ast.Name):
                     adefs = rcfg.defs_reaching(d, a.id)
-                    conds = " ".join(ast.unparse(g) for x in adefs for g, pol, _ in rcfg.guards_at(x))
-                    srcs = " ".join(ast.unparse(x.ast) for x in adefs)
-                    if not ("dict" in conds + srcs and "tuple" in conds + srcs and len(adefs) >= 2):
+                    # the builtin type names as identifiers (not as part of some local's spelling)
+                    seen = {y.id for x in adefs for g, pol, _ in rcfg.guards_at(x) for y in ast.walk(g) if isinstance(y, ast.Name)}
+                    seen |= {y.id for x in adefs if x.ast is not None for y in ast.walk(x.ast) if isinstance(y, ast.Name)}
+                    if not ("dict" in seen and "tuple" in seen and len(adefs) >= 2):
                         okn = False
                         whyn = f"`{a.id}` is measured without narrowing dict / tuple observations to an array leaf"
                 else:
@@ -350,8 +352,9 @@ def _multi_agent(ck: Check, repo: Repo) -> None:
     # _process_transition reads field f of agent a and stores to [f][a]
     pt = cls.methods["_process_transition"]
     reads = [c for c in calls_in(pt.node) if call_name(c) == "getattr" and len(c.args) == 2]
+    trvar = _returned_name(pt)  # role: the nested {field: {agent: value}} dict is the variable the function returns
     stores = [n for n in ast.walk(pt.node) if isinstance(n, ast.Assign) and isinstance(n.targets[0], ast.Subscript)
-              and isinstance(n.targets[0].value, ast.Subscript) and dotted(n.targets[0].value.value) == "transition"]
+              and isinstance(n.targets[0].value, ast.Subscript) and trvar is not None and dotted(n.targets[0].value.value) == trvar]
     ck.floor("C09.5", len(reads), 1, "field read in _process_transition", fn=pt)
     for c in reads:
         par = [x for x in ast.walk(pt.node) if isinstance(x, ast.Subscript) and x.value is c]
@@ -360,6 +363,21 @@ def _multi_agent(ck: Check, repo: Repo) -> None:
         ok = bool(stores) and all(dotted(s.targets[0].value.slice) == fvar and dotted(s.targets[0].slice) == avar for s in stores)
         ck.ob("C09.5", pt, c, ok, "a sampled value read as (field, agent) is stored under the same (field, agent)",
               detail=f"read [{fvar}][{avar}]")
+
+
+def _returned_name(fn: Fn) -> Optional[str]:
+    """The one local the function returns, directly or wrapped in a single-argument call such as tuple(x)
+    (None when the returns do not agree on one name)."""
+    names: Set[str] = set()
+    for x in walk_no_nested(fn.node):
+        if isinstance(x, ast.Return) and x.value is not None:
+            v = x.value
+            if isinstance(v, ast.Call) and len(v.args) == 1 and not v.keywords and isinstance(v.func, ast.Name):
+                v = v.args[0]
+            if not isinstance(v, ast.Name):
+                return None
+            names.add(v.id)
+    return names.pop() if len(names) == 1 else None
 
 
 # ------------------------------------------------------------------------------------------------
@@ -458,4 +476,8 @@ VARIANTS = [
     ("clear-forgets-ptr", _RBF, "        self.tree_ptr = 0\n        self.sum_tree = SumSegmentTree(self.sum_tree.capacity)", "        self.sum_tree = SumSegmentTree(self.sum_tree.capacity)", "fire", "C09.6"),
     ("clear-forgets-window", _RBF, "        super().clear()\n        self.n_step_buffer.clear()\n", "        super().clear()\n", "fire", "C09.6"),
     ("clear-forgets-cursor", _RBF, "        self._size = 0\n        self._cursor = 0\n", "        self._size = 0\n", "fire", "C09.6"),
+]
+VARIANTS += [
+    # the dict that is filled is recognised as the one the function returns, not by its name
+    ("ma-transition-stored-swapped", _MAF, "transition[field][agent_id] = ts", "transition[agent_id][field] = ts", "fire", "C09.5"),
 ]
